@@ -917,6 +917,8 @@ def vp_div_(a, b):
 # ------------------------------------------------------------------------------------------
 # loop fuel
 
+EXTRA = {}  # a harness may leave details of the failing path here (e.g. the schedule); stored with the model
+
 FUEL = [0, 10**9]
 
 
